@@ -120,7 +120,8 @@ class H(semh.Base):
             return T("gate g ( ) q0 { }")
         if k == "def":
             _, ptypes, ret = self.task
-            ps = " , ".join(f"{t} a{i}" for i, t in enumerate(ptypes))
+            # old-style register parameters are written `creg a0 [ 4 ]` / `qreg a0 [ 2 ]`
+            ps = " , ".join((f"{t[:4]} a{i} [ {t[5:]} ]" if t[:4] in ("creg", "qreg") else f"{t} a{i}") for i, t in enumerate(ptypes))
             return T(f"def f ( {ps} ) {'-> ' + ret + ' ' if ret else ''}{{ }}".replace("->", "-~ >"))
         if k == "defparam":     # def f(T[W] a0) { }  /  for T[W] a0 in [0:1] { }  : parameter and loop-variable symbols carry the written type
             _, ty, nd, form = self.task
@@ -197,7 +198,7 @@ class H(semh.Base):
             w = self.want_w
             t = sym("x")
             shown = repr(t)
-            ok_designator = nconst and not neg            # a constant non-negative integer
+            ok_designator = nconst and not neg and ntype.split()[0] in ("int", "uint")            # a constant non-negative INTEGER
             if ty == "qubit":
                 ok = t.v == "QubitArray" and t[0].v == "D1"
                 cond = val_eq(t[0][0], w) if ok else None
@@ -205,7 +206,7 @@ class H(semh.Base):
                 ok, cond = type_matches(t, TY[ty], w, False)
             if not errs:
                 if not ok_designator:
-                    raise Violation(f"`{self.label()}`: a {'negative' if neg else 'non-constant'} designator is accepted without diagnostic; recorded {shown}")
+                    raise Violation(f"`{self.label()}`: a {'negative' if neg else ('non-constant' if not nconst else 'non-integer (' + ntype + ')')} designator is accepted without diagnostic; recorded {shown}")
                 if not ok:
                     raise Violation(f"`{self.label()}`: recorded {shown}, the declaration says {ty}[n] with n = V")
                 ex.prove(cond, f"`{self.label()}`: no diagnostic, but the recorded width {shown} is not the value of the const designator", {"t": shown})
@@ -277,6 +278,8 @@ class H(semh.Base):
                 pt = sym(f"a{i}")
                 if pt_ == "qubit":
                     okp = pt.v == "Qubit"
+                elif pt_[:4] in ("creg", "qreg"):
+                    okp = pt is not None and pt.v == ("BitArray" if pt_[:4] == "creg" else "QubitArray")
                 else:
                     okp = type_matches(pt, TY[pt_], None, False)[0] or type_matches(pt, TY[pt_], None, True)[0]
                 if not okp:
@@ -353,7 +356,9 @@ def build_tasks(quick):
         for nd in ([1, 10] if quick else digits):
             for neg in (False, True):
                 for nconst in (True, False):
-                    for ntype in (("int", "uint", "int [ 128 ]", "int [ 32 ]", "uint [ 128 ]") if not quick or nconst else ("int",)):
+                    for ntype in (("int", "uint", "int [ 128 ]", "int [ 32 ]", "uint [ 128 ]", "float", "complex", "float [ 32 ]", "angle", "bool") if not quick or nconst else ("int",)):
+                        if ntype in ("angle", "bool") and (neg or not nconst):
+                            continue
                         tasks.append(("constid", ty, nd, neg, nconst, ntype))
     for np_ in range(0, 5):
         for nq in range(1, 5):
@@ -362,6 +367,8 @@ def build_tasks(quick):
     for k in range(0, 5):
         for ret in (None, "int", "float", "bit", "bool"):
             tasks.append(("def", tuple(pts[(i + k) % len(pts)] for i in range(k)), ret))
+    for ptypes in (("creg:4",), ("qreg:2",), ("int", "creg:4"), ("creg:4", "qreg:2", "int")):
+        tasks.append(("def", ptypes, None))
     for ty in ("int", "uint") if quick else ("int", "uint", "float", "angle", "bit"):
         for shadow in ("none", "body", "param"):
             for nd in (1, 2):
